@@ -68,3 +68,75 @@ Example counts_nonvacuous :
   | Raises _ => False
   end.
 Proof. vm_compute. repeat split; try reflexivity. Qed.
+
+(* ============ fingerprint conversions between kinds (model M2; proofs in Proofs/FprintConv.v) ============ *)
+From Coq Require Import QArith.
+From E3FP Require Import Base.Prelude Base.ZSet Model.Fprint Model.FprintIO Proofs.FprintEq Proofs.FprintConv.
+
+
+
+(* all nine ordered kind pairs: X.from_fingerprint(a) succeeds, keeps length / level / name and the index array, and
+   the indices are exactly the positions with a positive count in a *)
+Theorem convert_support : forall k a, wf_fp a ->
+  exists r, from_fingerprint k a = Ok r /\ fkind r = k /\ fbits r = fbits a /\ flevel r = flevel a /\ fname r = fname a /\
+            fidx r = fidx a /\ forall i, In i (fidx r) <-> (0 < get_count a i)%Q.
+Proof. exact convert_support. Qed.
+Print Assumptions convert_support.
+
+(* values: to bit -> 1 on the support; to count -> int(value); to float -> the value (bit sources count 1) *)
+Theorem convert_values : forall k a r, wf_fp a -> from_fingerprint k a = Ok r ->
+  forall i, get_count r i = match k with
+                            | KBit => if zmem i (fidx a) then 1%Q else 0%Q
+                            | _ => cast_value k (get_count a i)
+                            end.
+Proof. exact convert_values. Qed.
+Print Assumptions convert_values.
+
+Theorem convert_values_count_float : forall a r, wf_fp a -> from_fingerprint KFloat a = Ok r -> forall i, get_count r i = get_count a i.
+Proof. exact convert_values_count_float. Qed.
+Print Assumptions convert_values_count_float.
+
+Theorem convert_values_to_count : forall a r, wf_fp a -> from_fingerprint KCount a = Ok r -> forall i, get_count r i = qtrunc (get_count a i).
+Proof. exact convert_values_to_count. Qed.
+Print Assumptions convert_values_to_count.
+
+(* representable = integer-valued *)
+Theorem int_keeps_integers : forall v, (qtrunc v == v)%Q <-> exists n, (v == inject_Z n)%Q.
+Proof. exact qtrunc_fixed_iff. Qed.
+Print Assumptions int_keeps_integers.
+
+(* support by value (positions whose stored count is not 0) = indices, unless a value is truncated to 0 *)
+Theorem convert_nz_support : forall k a r, wf_fp a -> from_fingerprint k a = Ok r ->
+  (forall i, In i (fidx a) -> ~ (cast_value k (get_count a i) == 0)%Q) -> nz_support r = fidx a.
+Proof. exact convert_nz_support. Qed.
+Print Assumptions convert_nz_support.
+
+Theorem convert_truncates_to_zero_refuted :
+  exists a r, wf_fp a /\ from_fingerprint KCount a = Ok r /\ fidx r = fidx a /\ nz_support r <> fidx r /\ ~ wf_fp r.
+Proof. exact convert_truncates_to_zero_witness. Qed.
+Print Assumptions convert_truncates_to_zero_refuted.
+
+(* outside well-formedness (zero counts from subtraction): the bit view keeps a position whose count is zero *)
+Theorem bit_of_zero_count_refuted :
+  exists a r, wf_fp_signed a /\ from_fingerprint KBit a = Ok r /\ In 1 (fidx r) /\ (get_count a 1 == 0)%Q.
+Proof. exact bit_of_zero_count_witness. Qed.
+Print Assumptions bit_of_zero_count_refuted.
+
+(* a count fingerprint built from an index multiset: support = the set, counts = multiplicities *)
+Theorem count_is_multiplicity_fp : forall k idx bits lv nm r,
+  mk_count_from_indices k idx bits lv nm = Ok r ->
+  fkind r = k /\ fbits r = bits /\ flevel r = lv /\
+  fidx r = usort idx /\ (forall i, In i (fidx r) <-> In i idx) /\
+  ckeys (fcnt r) = fidx r /\ forall i, cget (fcnt r) i = inject_Z (count_occ_Z i idx).
+Proof. exact count_is_multiplicity_fp. Qed.
+Print Assumptions count_is_multiplicity_fp.
+
+Theorem mk_count_from_indices_total : forall k idx bits lv nm,
+  (forall i, In i idx -> i < bits) -> exists r, mk_count_from_indices k idx bits lv nm = Ok r.
+Proof. exact mk_count_from_indices_ok. Qed.
+Print Assumptions mk_count_from_indices_total.
+
+Theorem mk_count_from_indices_wf : forall k idx bits lv nm r, k <> KBit -> 0 <= bits ->
+  (forall i, In i idx -> 0 <= i) -> mk_count_from_indices k idx bits lv nm = Ok r -> wf_fp r.
+Proof. exact mk_count_from_indices_wf. Qed.
+Print Assumptions mk_count_from_indices_wf.
